@@ -7,6 +7,9 @@ from ..report import AnalysisError
 from ..srcmodel import unparse, norm, walk_no_nested, calls_in
 from .common import is_method_call, cfg_of, get_kw, recv_of
 from .tagtable import constructors
+from . import tr
+from ..fde import FDE
+from .common import node_obj, fde_guard
 
 PROP = 'C14'
 DECIDED = [
@@ -19,110 +22,136 @@ UNDECIDED = ['which placeholders survive a given merge history is decided by C02
 
 
 def r1(repo, run):
+    """on every path of Config.__init__ that copies / evaluates the tree, Config.check_missing(<that tree>) has run before"""
     fi = repo.func('Config.__init__')
-    g = cfg_of(fi)
-    sinks = g.find_calls(lambda c: is_method_call(c, member='evaluate', ayns=False) or norm(c.func) in ('copy.deepcopy', 'deepcopy', 'copy.copy'))
-    if not any(is_method_call(c, member='evaluate', ayns=False) for n, c in sinks):
+    paths = tr.paths_of(repo, fi, no_inline={'evaluate', 'check_missing', '__init__'}, follow_exceptions=False)
+    n = 0
+    verdicts = {}
+    for p in paths:
+        sinks = [(i, e) for i, e in enumerate(p.events) if e.kind == 'call' and (e.attr == 'evaluate' or e.callee in ('copy.deepcopy', 'deepcopy', 'copy.copy'))]
+        if not any(e.attr == 'evaluate' for _, e in sinks):
+            continue
+        n += 1
+        gates = [(i, e) for i, e in enumerate(p.events) if e.kind == 'call' and e.attr == 'check_missing' and e.args]
+        src = [x for x in p.events if x.kind == 'store' and x.target == 'self._source' and x.value is not None]
+        for i, e in sinks:
+            if gates and gates[0][0] < i:
+                verdicts.setdefault(('ok', id(e.node)), (e, 'preceded by Config.check_missing on every path'))
+            else:
+                verdicts.setdefault(('bad', id(e.node)), (e, 'the config is copied / evaluated on a path that has not scanned it for !required placeholders first (dynamic nodes run before the missing-value error)'))
+        if gates and src and gates[0][1].args[0].text != src[0].value.text:
+            verdicts.setdefault(('bad', 'tree'), (gates[0][1], 'the scanned tree (%s) is not the merged source tree (%s)' % (gates[0][1].args[0].text[:40], src[0].value.text[:40])))
+    if not n:
         raise AnalysisError('Config.__init__: evaluate call not found')
-    is_gate = lambda c: is_method_call(c, member='check_missing') and c.args
-    seen, _ = cfgmod.must_have_seen(g, is_gate)
-    gate_calls = [c for n, c in g.find_calls(is_gate)]
-    for n, c in sinks:
-        if cfgmod.dominated_by_gate(g, n, c, is_gate, seen):
-            run.ok('C14.R1', (fi.file, c.lineno, fi.qualname), unparse(c), 'preceded by Config.check_missing on every path')
-        else:
-            run.violation('C14.R1', fi, unparse(c), 'the config is copied / evaluated on a path that has not scanned it for !required placeholders first (dynamic nodes run before the missing-value error)', node=c)
-    # the scanned tree is the one that gets evaluated
-    ev = [c for n, c in sinks if is_method_call(c, member='evaluate')][0]
-    if gate_calls:
-        scanned = norm(gate_calls[0].args[0])
-        src = [s for s in walk_no_nested(fi.node) if isinstance(s, ast.Assign) and norm(s.targets[0]) == 'self._source']
-        if src and norm(src[0].value) != scanned:
-            run.violation('C14.R1', fi, unparse(gate_calls[0]), 'the scanned tree (%s) is not the merged source tree (%s)' % (scanned, norm(src[0].value)), node=gate_calls[0])
+    for (kind, _), (e, why) in verdicts.items():
+        (run.ok if kind == 'ok' else run.violation)('C14.R1', tr.where(fi, e), e.callee[:60], why)
+
+
+def _tree():
+    """root{a: leaf, f: CallNode{x: RequiredNode}, d: ConfigDict{y: RequiredNode, z: leaf}, dup: <same RequiredNode as d.y>}"""
+    req1 = node_obj('req1', 'RequiredNode')
+    req2 = node_obj('req2', 'RequiredNode')
+    la, lz = node_obj('leaf_a', 'ConfigNode'), node_obj('leaf_z', 'ConfigNode')
+    f = node_obj('call', 'CallNode', _children={'x': req1})
+    d = node_obj('dict', 'ConfigDict', _children={'y': req2, 'z': lz})
+    root = node_obj('root', 'ConfigDict', _children={'a': la, 'f': f, 'd': d, 'dup': req2})
+    return root, dict(req1=req1, req2=req2, la=la, lz=lz, f=f, d=d)
 
 
 def r2(repo, run):
+    """Config.check_missing evaluated with the walk replaced by a fixed sequence of (path, node) pairs: raises exactly when a
+    RequiredNode is among them and names every such path; the walk is asked for every position (recursive, duplicates)"""
     fi = repo.func('Config.check_missing')
-    cfg_param = fi.params()[0] if fi.is_static else fi.params()[1]
-    loops = [s for s in walk_no_nested(fi.node) if isinstance(s, ast.For)]
-    maps = [c for c in calls_in(fi.node) if is_method_call(c, member='map_nodes', ayns=True)]
     probs = []
-    acc = None
-    if loops and isinstance(loops[0].iter, ast.Call) and is_method_call(loops[0].iter, recv=cfg_param, member=('nodes_with_paths',), ayns=True):
-        lp = loops[0]
-        it = lp.iter
-        for kw, bad in (('recursive', False), ('allow_duplicates', False)):
-            v = get_kw(it, kw)
-            if v is not None and isinstance(v, ast.Constant) and v.value is bad:
-                probs.append('walk called with %s=%s' % (kw, bad))
-        early = [s for s in ast.walk(lp) if isinstance(s, (ast.Break, ast.Return, ast.Raise, ast.Continue))]
-        if early:
-            probs.append('early exit inside the scan loop (%s)' % norm(early[0]))
-        tests = [s for s in lp.body if isinstance(s, ast.If)]
-        if len(tests) != 1 or norm(tests[0].test) != 'isinstance(%s, RequiredNode)' % norm(lp.target.elts[1]):
-            probs.append('loop body does not test isinstance(node, RequiredNode) for every visited node')
-        else:
-            ap = [c for c in calls_in(tests[0]) if isinstance(c.func, ast.Attribute) and c.func.attr == 'append']
-            if not ap or norm(lp.target.elts[0]) not in norm(ap[0].args[0]):
-                probs.append('the path of a found placeholder is not collected')
-            else:
-                acc = norm(ap[0].func.value)
-        visit = 'for path, node in %s' % norm(it)
-    elif maps:
-        c = maps[0]
-        cr = get_kw(c, 'cache_results')
-        if not (isinstance(cr, ast.Constant) and cr.value is False):
-            probs.append('scan through map_nodes with result caching (default): a placeholder node reachable from several positions (YAML alias) is visited once, the other paths are not listed')
-        visit = unparse(c)[:80]
-        for s in ast.walk(fi.node):
-            if isinstance(s, ast.Call) and isinstance(s.func, ast.Attribute) and s.func.attr == 'append':
-                acc = norm(s.func.value)
-    else:
-        raise AnalysisError('check_missing: scan idiom not recognised')
-    rz = [s for s in fi.node.body if isinstance(s, ast.If) and any(isinstance(b, ast.Raise) for b in s.body)]
-    if acc is not None:
-        if len(rz) != 1 or norm(rz[0].test) != acc:
-            probs.append('does not raise exactly when the collected list %s is non-empty' % acc)
-        elif acc not in norm(rz[0].body[-1]):
-            probs.append('the error message does not include the collected paths')
+    rows = 0
+    req1, req2 = node_obj('req1', 'RequiredNode'), node_obj('req2', 'RequiredNode')
+    plain = node_obj('plain', 'ConfigNode')
+    for seq, want in (([('p/a', plain)], []), ([('p/a', plain), ('p/b', req1)], ['p/b']), ([('p/r', req1), ('p/a', plain), ('p/s', req2), ('p/t', req2)], ['p/r', 'p/s', 'p/t']), ([], [])):
+        cfg = node_obj('cfg', 'ConfigDict', _children={})
+        walks = []
+
+        def stub(name, recv, args, kwargs, walks=walks, seq=seq):
+            walks.append((name, recv, list(args), dict(kwargs)))
+            if name == 'map_nodes':
+                # model of map_nodes over the same positions: with result caching (the default) a node object is handed to the
+                # callback once, however many positions it occupies
+                fn = holder[0].as_callable(args[0] if args else kwargs['map_fn'])
+                seen = set()
+                for pth, nd in seq:
+                    if kwargs.get('cache_results', True) and id(nd) in seen:
+                        continue
+                    seen.add(id(nd))
+                    fn(pth, nd)
+                return recv
+            return list(seq)
+        holder = []
+        f = FDE(repo, stubs={'nodes_with_paths', 'map_nodes', 'nodes'}, stub=stub)
+        holder.append(f)
+        r = fde_guard(lambda: f.call(fi, *([cfg] if fi.is_static else [('class', 'Config'), cfg])))
+        rows += 1
+        if len(walks) != 1 or walks[0][1] is not cfg or walks[0][0] not in ('nodes_with_paths', 'map_nodes'):
+            raise AnalysisError('check_missing: scan idiom not recognised')
+        kw = walks[0][3]
+        for k, bad in (('recursive', False), ('allow_duplicates', False)):
+            if kw.get(k, True) is bad:
+                probs.append('walk called with %s=%s' % (k, bad))
+        if want and not r.raised:
+            probs.append('placeholders at %s do not fail the build' % want)
+        elif not want and r.raised:
+            probs.append('a tree without placeholders is rejected (%s)' % r.raised)
+        elif want:
+            msg = ' '.join(str(a) for a in (r.raised_args or []))
+            if r.raised_args is None:
+                raise AnalysisError('check_missing: error message not evaluable')
+            lost = [w for w in want if w not in msg]
+            if lost:
+                probs.append('the error message does not include the collected paths %s (placeholders present at %s)' % (lost, want))
+    run.table('C14.R2', rows, 'check_missing over visited (path, node) sequences')
     if probs:
-        run.violation('C14.R2', fi, visit, '; '.join(probs))
+        run.violation('C14.R2', fi, 'placeholder scan', '; '.join(sorted(set(probs))))
     else:
-        run.ok('C14.R2', fi, visit, 'every position visited, all placeholder paths collected and reported')
+        run.ok('C14.R2', fi, 'placeholder scan table (%d rows)' % rows, 'every position asked for, all placeholder paths collected and reported')
 
 
 def r3(repo, run):
+    """ComposedNode.ayns.nodes_with_paths evaluated on a small tree (generator collected): every node object below the root is
+    visited, containers are entered by type (also those that call themselves leaves), shared nodes are reported at every position"""
     fi = repo.func('ComposedNode.ayns.nodes_with_paths')
-    loops = [s for s in walk_no_nested(fi.node) if isinstance(s, ast.For) and norm(s.iter) == 'self._children.items()']
-    if len(loops) != 1:
-        raise AnalysisError('nodes_with_paths: child loop not recognised')
-    lp = loops[0]
-    child = lp.target.elts[1].id
-    dec = [s for s in lp.body if isinstance(s, ast.If) and any(isinstance(x, ast.Expr) and isinstance(x.value, ast.Yield) for x in s.body) and s.orelse]
-    if len(dec) != 1:
-        raise AnalysisError('nodes_with_paths: leaf / recurse decision not recognised')
-    d = dec[0]
-    t = norm(d.test)
-    want = 'not recursive or not isinstance(%s, ComposedNode)' % child
-    if t != want:
-        if 'is_leaf' in t:
-            run.violation('C14.R3', fi, t, 'the walk decides by is_leaf whether to descend: function nodes (!call/!bind) declare is_leaf=True but hold argument children, so placeholders inside call arguments are never visited', node=d)
+    root, n = _tree()
+    def _pfx(name, recv, args, kwargs):
+        for c in [recv] + list(args):
+            if isinstance(c, list):
+                return list(c)
+        return ['root']
+    f = FDE(repo, stubs={'get_list_path'}, stub=_pfx)
+    f.generators = True
+    r = fde_guard(lambda: f.call(fi, root))
+    if r.raised or not isinstance(r.ret, list):
+        raise AnalysisError('nodes_with_paths: not evaluable as a generator (%s)' % r.raised)
+    got = [x[1] for x in r.ret if isinstance(x, (tuple, list)) and len(x) == 2]
+    paths = [tuple(x[0]) for x in r.ret if isinstance(x, (tuple, list)) and len(x) == 2 and isinstance(x[0], (list, tuple))]
+    want = [n['la'], n['f'], n['req1'], n['d'], n['req2'], n['lz'], n['req2']]
+    names = lambda xs: [getattr(o, 'name', repr(o)) for o in xs]
+    if got != want:
+        missing = [o for o in want if o not in got]
+        if n['req1'] in missing:
+            why = 'the walk does not descend into a function node (declares is_leaf=True but holds argument children): placeholders inside call arguments are never visited'
+        elif got.count(n['req2']) < 2:
+            why = 'a node reachable from several positions is reported once only (duplicates skipped by default)'
         else:
-            run.violation('C14.R3', fi, t, 'recursion criterion differs from `%s`' % want, node=d)
+            why = 'visited %s, expected %s' % (names(got), names(want))
+        run.violation('C14.R3', fi, 'tree walk', why)
+    elif len(paths) == len(want) and paths != [('root', 'a'), ('root', 'f'), ('root', 'f', 'x'), ('root', 'd'), ('root', 'd', 'y'), ('root', 'd', 'z'), ('root', 'dup')]:
+        run.violation('C14.R3', fi, 'tree walk', 'paths reported with the nodes are %s' % (paths,))
     else:
-        run.ok('C14.R3', (fi.file, d.lineno, fi.qualname), t, 'descends into every ComposedNode child')
-    rec = [c for c in calls_in(ast.Module(body=d.orelse, type_ignores=[])) if is_method_call(c, recv=child, member='nodes_with_paths', ayns=True)]
-    if not rec or norm(get_kw(rec[0], 'recursive') or ast.Constant(value=None)) != 'recursive' or norm(get_kw(rec[0], 'include_self') or ast.Constant(value=None)) != 'True' or norm(get_kw(rec[0], 'prefix') or ast.Constant(value=None)) != 'child_path':
-        run.violation('C14.R3', fi, unparse(rec[0]) if rec else 'recursive call', 'recursive walk must be child.nodes_with_paths(prefix=child_path, recursive=recursive, include_self=True)')
-    else:
-        run.ok('C14.R3', (fi.file, rec[0].lineno, fi.qualname), unparse(rec[0])[:110])
-    a = fi.node.args
-    names = [x.arg for x in a.args]
-    dv = dict(zip(names[len(names) - len(a.defaults):], a.defaults))
-    if not (isinstance(dv.get('recursive'), ast.Constant) and dv['recursive'].value is True and isinstance(dv.get('allow_duplicates'), ast.Constant) and dv['allow_duplicates'].value is True):
-        run.violation('C14.R3', fi, 'defaults of nodes_with_paths', 'the walk is not recursive / skips duplicates by default')
-    else:
-        run.ok('C14.R3', fi, 'nodes_with_paths defaults: recursive=True, allow_duplicates=True')
+        run.ok('C14.R3', fi, 'nodes_with_paths on a 4-level tree: %s' % names(got), 'descends into every ComposedNode child (incl. function nodes), reports shared nodes at every position')
+    # non-recursive walk and include_self
+    f2 = FDE(repo, stubs={'get_list_path'}, stub=_pfx)
+    f2.generators = True
+    r2_ = fde_guard(lambda: f2.call(fi, root, recursive=False, include_self=True))
+    got2 = [x[1] for x in (r2_.ret or [])]
+    if got2 != [root, n['la'], n['f'], n['d'], n['req2']]:
+        run.violation('C14.R3', fi, 'tree walk (recursive=False, include_self=True)', 'visited %s' % names(got2))
 
 
 def r4(repo, run):
